@@ -16,7 +16,7 @@ from ..flow import Flow
 from .C06 import fold
 
 GEO = "typhon/geodesy.py"
-EXPECT = {"C07.geodetic": 3, "C07.radius": 3, "C07.sphere": 4, "C07.dist": 5, "C07.fixpoint": 3, "C07.tol": 2, "C07.compose": 2, "C07.models": 2}
+EXPECT = {"C07.geodetic": 3, "C07.radius": 3, "C07.sphere": 4, "C07.dist": 5, "C07.fixpoint": 3, "C07.tol": 2, "C07.compose": 2, "C07.models": 2, "C07.los": 1}
 
 sp_, cp_, sl_, cl_ = sp.symbols("s_phi c_phi s_lam c_lam", real=True)
 RELS = [sp_ ** 2 + cp_ ** 2 - 1, sl_ ** 2 + cl_ ** 2 - 1]
@@ -353,6 +353,84 @@ def rule_models(ctx):
            "constants.earth_radius; WGS84 a = 6378137 m, e = 0.0818191908426", node=tab, func=f)
 
 
+def rule_los(ctx):
+    ctx.rule("C07.los", "T4 (truth table)", "cartposlos2geocentric: the azimuth from arccos lies in [0, 180]; it is mirrored for a westward component and, where "
+             "rounding made it NaN (meridional line of sight), repaired from the sign of the NORTHWARD component")
+    from ..order import Interp
+    import itertools
+    f = ctx.func(GEO, "cartposlos2geocentric")
+    flow = Flow(f)
+    acos = [st for st in flow.stmts if isinstance(st, ast.Assign) and isinstance(st.targets[0], ast.Subscript) and calls_in(st.value, "arccos")
+            and calls_in(st.value, "rad2deg")]
+    acos = [st for st in acos if norm(st.targets[0].value) != "za"]
+    if len(acos) != 1:
+        raise AnalysisError("cartposlos2geocentric: azimuth from arccos not found")
+    a0 = acos[0]
+    aa = norm(a0.targets[0].value)
+    # which local is the northward / eastward rate: dlat enters the arccos, the other one decides the mirror
+    names = {n_.id for n_ in ast.walk(a0.value) if isinstance(n_, ast.Name)}
+    blk = parent(a0)
+    body = next(getattr(blk, fl_) for fl_ in ("body", "orelse") if any(x is a0 for x in getattr(blk, fl_, [])))
+    later = body[[k_ for k_, x in enumerate(body) if x is a0][0] + 1:]
+    fixdef = [st for st in later if isinstance(st, ast.Assign) and isinstance(st.targets[0], ast.Name) and calls_in(st.value, "isnan")]
+    if len(fixdef) != 1:
+        raise AnalysisError("cartposlos2geocentric: NaN mask of the azimuth not found")
+    fix = fixdef[0].targets[0].id
+    stores = [st for st in later if isinstance(st, (ast.Assign, ast.AugAssign)) and isinstance(st.targets[0] if isinstance(st, ast.Assign) else st.target, ast.Subscript)
+              and norm((st.targets[0] if isinstance(st, ast.Assign) else st.target).value) == aa]
+    if not stores:
+        raise AnalysisError("cartposlos2geocentric: repair / mirror stores into the azimuth not found")
+    masks_vars = set()
+    for st in stores:
+        t_ = st.targets[0] if isinstance(st, ast.Assign) else st.target
+        masks_vars |= {n_.id for n_ in ast.walk(t_.slice) if isinstance(n_, ast.Name)}
+    rate = sorted(masks_vars - {fix, "np"})
+    # the northward rate is the local of this block that enters the arccos (not as an index)
+    in_slices = {id(x) for n_ in ast.walk(a0.value) if isinstance(n_, ast.Subscript) for x in ast.walk(n_.slice)}
+    assigned_here = {t_.id for st in body for t_ in ast.walk(st) if isinstance(t_, ast.Name) and isinstance(t_.ctx, ast.Store)}
+    north = sorted({n_.id for n_ in ast.walk(a0.value) if isinstance(n_, ast.Name) and id(n_) not in in_slices and n_.id in assigned_here and n_.id != aa})
+    if len(north) != 1:
+        raise AnalysisError("cartposlos2geocentric: northward rate not identified (%s)" % north)
+    N = north[0]
+    E = [v for v in rate if v != N]
+    if len(E) > 1:
+        raise AnalysisError("cartposlos2geocentric: masks depend on %s" % rate)
+    E = E[0] if E else None
+    funcs = {"logical_and": lambda a, b: bool(a) and bool(b), "logical_or": lambda a, b: bool(a) or bool(b), "logical_not": lambda a: not a}
+    bad = None
+    for isfix, sn, se in itertools.product((True, False), (-1, 0, 1), (-1, 0, 1)):
+        val = "acos"          # abstract value of aa: 'acos' (in [0, 180]), 'neg' (mirrored), 0, 180
+        for st in stores:
+            t_ = st.targets[0] if isinstance(st, ast.Assign) else st.target
+            env = {fix: isfix, N: sn}
+            if E:
+                env[E] = se
+            try:
+                hit = bool(Interp(env, funcs).ev(t_.slice))
+            except AnalysisError as e_:
+                raise AnalysisError("cartposlos2geocentric: mask %s outside the model: %s" % (norm(t_.slice), e_))
+            if not hit:
+                continue
+            if isinstance(st, ast.Assign):
+                v_ = norm(st.value)
+                val = {"0": 0, "0.0": 0, "180": 180, "180.0": 180}.get(str(v_), "other:" + str(v_))
+            elif isinstance(st.op, ast.Mult) and norm(st.value) in ("-1", "-1.0"):
+                val = {"acos": "neg", "neg": "acos", 0: 0, 180: -180}.get(val, "other")
+            else:
+                val = "other"
+        if isfix:
+            want = {1: (0,), -1: (180,), 0: (0, 180)}[sn]
+        else:
+            want = ("neg",) if (E and se < 0) else ("acos",)
+        if val not in want:
+            bad = {"azimuth was NaN": isfix, "sign of northward rate %s" % N: sn, "sign of eastward rate %s" % E: se, "azimuth becomes": str(val), "expected": [str(w) for w in want]}
+            break
+    ctx.models.append({"rule": "C07.los", "cases": 18, "exhaustive": True, "domain": "NaN flag x sign(northward) x sign(eastward)"})
+    ctx.ob("cartposlos2geocentric.azimuth_signs", bad is None, "; ".join(norm(s_)[:70] for s_ in stores),
+           "NaN -> 0 when the line of sight heads north (%s > 0), 180 when south; otherwise mirrored to negative exactly for a westward component" % N,
+           node=stores[0], func=f, witness=bad)
+
+
 def run(ctx):
-    for r in (rule_geodetic, rule_radius, rule_sphere, rule_dist, rule_fixpoint, rule_tol, rule_compose, rule_models):
+    for r in (rule_geodetic, rule_radius, rule_sphere, rule_dist, rule_fixpoint, rule_tol, rule_compose, rule_models, rule_los):
         ctx.attempt(r, ctx)
